@@ -86,12 +86,12 @@ def shards(tier, seed):
                         "name": f"exh-{nit}-{part}"})
     for i, nit in enumerate(("float", "float", "decimal", "fraction") if q else
                             ("float", "float", "decimal", "decimal", "fraction", "fraction")):
-        out.append({"kind": "comp", "nit": nit, "name": f"comp-{nit}-{i}", "n": 2500 if q else 30000})
+        out.append({"kind": "comp", "nit": nit, "name": f"comp-{nit}-{i}", "n": 2500 if q else 22000})
     for i, nit in enumerate(("float", "float", "decimal", "fraction") if q else
                             ("float", "float", "decimal", "decimal", "fraction", "fraction")):
-        out.append({"kind": "qty", "nit": nit, "name": f"qty-{nit}-{i}", "n": 1500 if q else 20000})
+        out.append({"kind": "qty", "nit": nit, "name": f"qty-{nit}-{i}", "n": 1500 if q else 14000})
     for i in range(2 if q else 4):
-        out.append({"kind": "cfg", "nit": "float", "name": f"cfg-{i}", "n": 50 if q else 600})
+        out.append({"kind": "cfg", "nit": "float", "name": f"cfg-{i}", "n": 50 if q else 450})
     return out
 
 
@@ -607,6 +607,9 @@ class Monitor:
             try:
                 a = target.to(q.units).magnitude
                 b = q.magnitude
+                fa, fb = np.asarray(a, dtype=float), np.asarray(b, dtype=float)
+                if np.any((fa == 0) != (fb == 0)) or not np.all(np.isfinite(fa) == np.isfinite(fb)):
+                    raise OverflowError("float range")      # under/overflow of the conversion factor
                 if not np.allclose(np.asarray(a, dtype=float), np.asarray(b, dtype=float),
                                    rtol=1e-9, atol=0, equal_nan=True):
                     rec.violation("compact-changes-value", dict(ctx, spec=spec, q=repr(q), compact=repr(target)),
@@ -678,14 +681,14 @@ class Monitor:
                 utext = "1 " + utext          # documented: "3 1 / m" is written "3 / m"
         self.rec.count("magnitude_text_checked")
         if rewritable:
-            base = format(m, mspec)
+            base = format(m, mspec)      # (rewritable is never set for raw)
             self.rec.observe("sci_rewrite", f"{fam}:{'rewritten' if used != base else 'plain'}:"
                                             f"{'neg' if base.startswith('-') else 'pos'}")
         # unit part
         ok = self.check_unit_text(utext, fam, short, items, ctx, "Quantity")
         if not ok:
             return "bad-recorded", None      # check_unit_text has recorded it
-        return "ok", used != format(m, mspec) if not isinstance(m, np.ndarray) else False
+        return "ok", bool(rewritable and used != format(m, mspec))
 
     def quantity_roundtrip(self, q, text, fam, short, items, rewritten, ctx):
         rec, ureg, N = self.rec, self.ureg, self.N
@@ -1095,8 +1098,10 @@ def foreign_mag(rng, nit):
         return np.float64(rng.choice((2.5, 1.5e20, -3.25e-9)))
     if k < 0.7:
         return np.int64(rng.choice((3, -12, 100000)))
-    if k < 0.8:
+    if k < 0.78:
         return rng.choice((float("inf"), float("-inf"), float("nan")))
+    if k < 0.86:
+        return rng.choice((complex(150, 3e-5), complex(1.5e20, -2.5e-7), complex(0, 1), complex(-2.5, 4)))
     pool = {"float": (Decimal("2.50"), F(22, 7), Decimal("1.5E+20")),
             "decimal": (2.5, F(22, 7), 1.5e20),
             "fraction": (2.5, Decimal("2.50"), 1.5e-20)}[nit]
